@@ -200,7 +200,7 @@ fn exercise_bytes(rec: &mut Rec, b: &[u8]) {
 }
 
 /// damaged encodings of a text: truncation inside a multi-byte sequence, overlong forms, surrogates, bytes >= 0xF5
-fn damaged(text: &str) -> Vec<Vec<u8>> {
+pub fn damaged(text: &str) -> Vec<Vec<u8>> {
     let b = text.as_bytes();
     let mut v = Vec::new();
     for (i, c) in text.char_indices() {
@@ -263,4 +263,21 @@ pub fn entry_events(args: &Args) {
         }
     }
     let _ = std::fs::write(&progress, "done");
+}
+
+/// --in texts.ndjson --out bytes.ndjson [--mod M] : damaged UTF-8 encodings of the texts as byte-string inputs (C01)
+pub fn gen_damaged(args: &Args) {
+    let recs = read_ndjson(args.req("in"));
+    let m = args.num("mod", 1).max(1) as usize;
+    let mut out = out_writer(args);
+    for (i, r) in recs.iter().enumerate() {
+        if i % m != 0 {
+            continue;
+        }
+        let Some(t) = r.get("text") else { continue };
+        let text = from_cps(t);
+        for (k, d) in damaged(&text).into_iter().enumerate() {
+            writeln!(out, "{}", json!({"id": format!("{}#bytes{k}", r["id"].as_str().unwrap_or("")), "bytes": d})).unwrap();
+        }
+    }
 }
